@@ -226,6 +226,70 @@ func runFreshBinder(p *Program, r *RuleResult) {
 					fmt.Sprintf("%s is inserted into the context without a freshness test: an entry of the same name that is still owed a use is silently overwritten (shadowed)", strings.TrimSuffix(key, ".Ident")))
 			}
 		}
+		// distinct binders: two insertions into the same context must be known to have different keys
+		type insT struct {
+			mu  *ssa.MapUpdate
+			key string
+			rt  ssa.Value
+		}
+		var inserts []insT
+		for _, b := range view.Blocks() {
+			for _, in := range view.Instrs(b) {
+				if mu, ok := in.(*ssa.MapUpdate); ok && isCtxType(mu.Map.Type()) {
+					if k := accessPath(mu.Key); strings.HasSuffix(k, ".Ident") {
+						rt, _ := ctxRoot(mu.Map)
+						inserts = append(inserts, insT{mu, k, rt})
+					}
+				}
+			}
+		}
+		for i := 0; i < len(inserts); i++ {
+			for j := 0; j < len(inserts); j++ {
+				a, b2 := inserts[i], inserts[j]
+				if i == j || a.key >= b2.key || a.rt != b2.rt {
+					continue
+				}
+				// may both execute on one path?
+				reach := len(view.mayReachFrom(a.mu, nil, func(in ssa.Instruction) bool { return in == ssa.Instruction(b2.mu) }, nil)) > 0 ||
+					len(view.mayReachFrom(b2.mu, nil, func(in ssa.Instruction) bool { return in == ssa.Instruction(a.mu) }, nil)) > 0
+				if !reach {
+					continue
+				}
+				fa, fb := strings.TrimSuffix(a.key, ".Ident"), strings.TrimSuffix(b2.key, ".Ident")
+				construct := fmt.Sprintf("distinct-binders:%s,%s#%d", fa, fb, ord[a.key+b2.key]+1)
+				ord[a.key+b2.key]++
+				distinct := false
+				later := a.mu
+				if len(view.mayReachFrom(a.mu, nil, func(in ssa.Instruction) bool { return in == ssa.Instruction(b2.mu) }, nil)) > 0 {
+					later = b2.mu
+				}
+				for f := range view.FactsAt(later.Block()) {
+					if f.k != factFalse {
+						continue
+					}
+					switch t := f.v.(type) {
+					case *ssa.Call:
+						if sc := t.Common().StaticCallee(); sc != nil && sc.Name() == "Equal" && len(t.Common().Args) == 2 {
+							x, y := accessPath(t.Common().Args[0]), accessPath(t.Common().Args[1])
+							if (x == fa && y == fb) || (x == fb && y == fa) {
+								distinct = true
+							}
+						}
+					case *ssa.BinOp:
+						x, y := accessPath(t.X), accessPath(t.Y)
+						if t.Op.String() == "==" && ((x == a.key && y == b2.key) || (x == b2.key && y == a.key)) {
+							distinct = true
+						}
+					}
+				}
+				if distinct {
+					r.add(name, construct, Holds, p.instrPos(later), "the two binders are known to differ")
+				} else {
+					r.add(name, construct, Violated, p.instrPos(later),
+						fmt.Sprintf("%s and %s are both inserted into the same context without a test that they differ: if the program uses one identifier for both, the second insertion silently overwrites (discards) the first channel", fa, fb))
+				}
+			}
+		}
 		if isNew {
 			sort.Strings(dichotomyKeys)
 			key := dichotomyKeys[0]
